@@ -733,7 +733,14 @@ def execute(plan, stats=None, want_events=True):
     _SERVER = CallServer() if plan.get('iso') else None
     try:
         for c in range(len(plan['clients'])):
-            ref[c], ff, ncalls = isolate.call(run_ref_client, (plan, c), timeout=300)
+            try:
+                ref[c], ff, ncalls = isolate.call(run_ref_client, (plan, c), timeout=300)
+            except isolate.ChildFailed as e:
+                if e.signal not in isolate.CRASH_SIGNALS:
+                    raise
+                name = isolate.CRASH_SIGNALS[e.signal]
+                ref[c], ff, ncalls = {}, [{'oracle': 'CRASH', 'key': 'CRASH:' + name, 'where': [None, c, None], 'fn': None,
+                                           'detail': 'client %d alone in a pristine process died with %s' % (c, name)}], 0
             ref_findings.extend(ff)
             st['forks'] = st.get('forks', 0) + 1
             st['iso_calls'] = st.get('iso_calls', 0) + ncalls
